@@ -114,11 +114,6 @@ class ResponseDriver:
                     continue
                 raise Divergence(where + ': %s with a value type that is neither field nor voltage' % name, 'ValueError', 'accepted')
             return
-        top.clear()
-        top.receive(empty, direction=d, polarization=p)
-        self.same(where + ': receive(empty signal)', ant.signals[-1].values, np.zeros(len(T)))
-        if ant.signals[-1].value_type != Signal.Type.voltage:
-            raise Divergence(where + ': stored empty signal type', 'voltage', ant.signals[-1].value_type)
         factor = gain * eff / (af if last['factor'] == 'gain_over_antenna_factor' else 1.0)
         out1 = top.apply_response(s1, direction=d, polarization=p)
         self.same(where + ': response', out1.values, V1 * factor)
@@ -145,6 +140,12 @@ class ResponseDriver:
         if c['cls'] == 'base':
             top.receive([s1, s2], direction=d, polarization=[p, p])
             self.same(where + ': receive([s1, s2])', ant.signals[-1].values, (V1 + V2) * factor)
+        # empty signals of an accepted type are received as all-zero voltages
+        top.clear()
+        top.receive(empty, direction=d, polarization=p)
+        self.same(where + ': receive(empty signal)', ant.signals[-1].values, np.zeros(len(T)))
+        if ant.signals[-1].value_type != Signal.Type.voltage:
+            raise Divergence(where + ': stored empty signal type', 'voltage', ant.signals[-1].value_type)
         # dipole gains directly
         if c['cls'] == 'dipole':
             rr, theta, phi = ant._convert_to_antenna_coordinates(np.array(ant.position) - d / np.linalg.norm(d))
